@@ -143,11 +143,14 @@ def describe_operand(P, body, o, depth=0):
     return ("?",)
 
 
+EXPAND_NAMED = [False]
+
+
 def describe_place(P, body, p, depth=0):
     l = p["l"]
     name = body["locals"][l].get("n")
     pj = tuple(("d" if e == "d" else e.get("n", e.get("f", e.get("dc", "?")))) if not isinstance(e, str) else e for e in p["pj"])
-    if name or l <= body["argc"] or depth > 6:
+    if (name and not EXPAND_NAMED[0]) or l <= body["argc"] or depth > 6:
         return ("place", name or f"_{l}", pj)
     defs = local_defs(body, l)
     if len(defs) != 1:
